@@ -16,12 +16,12 @@ DblPool == { NaN, Inf(FALSE), Inf(TRUE), Zero(FALSE), Zero(TRUE) } \cup
            { D(s, m, e) : s \in BOOLEAN, m \in {<<1>>}, e \in {-1, 0, 63, 64, 62} } \cup
            { D(s, MSub(P53, <<1>>), e) : s \in BOOLEAN, e \in {10, 11, 0, -1, -52} } \cup { D(s, <<3>>, -1) : s \in BOOLEAN } \cup { D(FALSE, <<1>>, 1000) }
 Txt(s) == S(s)
-StrPool == { S(<<>>), S(<<97>>), S(<<233>>), S(<<128049>>), S(<<49, 50, 51>>), S(<<45, 53>>), S(<<97, 98, 99>>), S(<<49, 101, 51>>), S(<<32, 49>>), S(<<43, 49>>), S(<<48, 48, 55>>),
+StrPool == { S(<<65279, 97>>), S(<<65279>>), S(<<>>), S(<<97>>), S(<<233>>), S(<<128049>>), S(<<49, 50, 51>>), S(<<45, 53>>), S(<<97, 98, 99>>), S(<<49, 101, 51>>), S(<<32, 49>>), S(<<43, 49>>), S(<<48, 48, 55>>),
              S(<<49,56,52,52,54,55,52,52,48,55,51,55,48,57,53,53,49,54,49,53>>), S(<<49,56,52,52,54,55,52,52,48,55,51,55,48,57,53,53,49,54,49,54>>),
              S(<<57,50,50,51,51,55,50,48,51,54,56,53,52,55,55,53,56,48,55>>), S(<<57,50,50,51,51,55,50,48,51,54,56,53,52,55,55,53,56,48,56>>),
              S(<<45,57,50,50,51,51,55,50,48,51,54,56,53,52,55,55,53,56,48,56>>), S(<<45,57,50,50,51,51,55,50,48,51,54,56,53,52,55,55,53,56,48,57>>),
              S(<<116, 114, 117, 101>>), S(<<102, 97, 108, 115, 101>>), S(<<45, 48>>) }
-BytesPool == { Bytes(<<>>), Bytes(<<97>>), Bytes(<<195, 169>>), Bytes(<<240, 159, 144, 177>>), Bytes(<<255>>), Bytes(<<195>>), Bytes(<<195, 40>>), Bytes(<<237, 160, 128>>),
+BytesPool == { Bytes(<<239, 187, 191, 97>>), Bytes(<<>>), Bytes(<<97>>), Bytes(<<195, 169>>), Bytes(<<240, 159, 144, 177>>), Bytes(<<255>>), Bytes(<<195>>), Bytes(<<195, 40>>), Bytes(<<237, 160, 128>>),
                Bytes(<<192, 128>>), Bytes(<<97, 128>>), Bytes(<<244, 144, 128, 128>>), Bytes(<<224, 128, 128>>) }
 TsOf(y, mo, d, sec) == Ts(Join(DaysFromCivil(y, mo, d), sec, 0))
 TsPool == { TsOf(1, 1, 1, 0), TsOf(999, 12, 31, 86399), TsOf(1000, 1, 1, 0), TsOf(1969, 12, 31, 86399), TsOf(1970, 1, 1, 0), TsOf(2000, 2, 29, 43200), TsOf(9999, 12, 31, 86399) }
